@@ -177,6 +177,7 @@ void harness(void)
             ASSUME(flags_ok(st[i].flags));
             ASSUME((unsigned) st[i].current_type <= (unsigned) BINSON_TYPE_BYTES);
             if (IN.lv[i].name_null) {
+                ASSUME(st[i].flags != 2);          /* EXPECTING_VALUE is only entered right after a name was stored */
                 st[i].current_name.bptr = NULL;
                 st[i].current_name.bsize = 0;
             } else {
@@ -323,6 +324,7 @@ void harness(void)
             INV_CHECK((unsigned) st[i].current_type <= (unsigned) BINSON_TYPE_BYTES, "Inv: type tag is an enumerator");
             if (st[i].current_name.bptr == NULL) {
                 INV_CHECK(st[i].current_name.bsize == 0, "Inv: no name => length 0");
+                INV_CHECK(st[i].flags != 2, "Inv: a level that expects a value has a name");
             } else {
                 INV_CHECK(SPAN_IN(st[i].current_name.bptr, st[i].current_name.bsize, buf, NB), "Inv/C01: name span inside the buffer");
             }
@@ -393,6 +395,8 @@ void harness(void)
     COVER(err0 == BINSON_ERROR_NONE, "main: getters evaluated on an error-free state");
 #elif FN == 13
     COVER(r, "main: reset accepted");
+#elif FN == 14
+    COVER(r, "main: verify accepted");
 #else
     COVER(r && err0 == BINSON_ERROR_NONE && p.buffer_used > used0, "main: call succeeded and advanced");
 #endif
